@@ -293,6 +293,13 @@ def lean_stage(ctx, modules, gen=None):
                            "axioms: %s" % (a,) if a is not None else "axiom audit produced no line: " + out[-300:])
             if not good:
                 ok_all = False
+        if not ctx.quick():
+            # thorough tier: the toolchain's independent re-checker replays the compiled module (and the helper
+            # module it rests on) through the kernel
+            r = subprocess.run(["lake", "env", "leanchecker", mod], cwd=LEAN, env=_env(), capture_output=True, text=True, timeout=3600)
+            ctx.obligation("leanchecker replays %s" % mod, r.returncode == 0, (r.stdout + r.stderr)[-300:].strip() or "ok")
+            if r.returncode != 0:
+                ok_all = False
     return ok_all
 
 
